@@ -1,0 +1,8 @@
+//go:build verif
+
+package topics
+
+// VerifNextTopicLevel exposes the level splitter / filter validation.
+func VerifNextTopicLevel(topic []byte) ([]byte, []byte, error) {
+	return nextTopicLevel(topic)
+}
